@@ -128,6 +128,9 @@ def run(ctx):
         inc = [r for r in zrows if r.truth("self._obj.eof") is False]
         ok = bool(inc) and all(r.out == "raise:DecodeError" for r in inc)
         ctx.ob(R4, zf.qual, "an incomplete zstd frame raises DecodeError at flush", ok, "; ".join(r.out for r in inc))
+    # a stacked coding: the incomplete-frame report of a zstd layer is only heard if flush() reaches that layer (shared with C12-R4)
+    from .c12 import multidecoder_flush_clause as _mfc
+    _mfc(ctx, R4)
     gz = m.method(f"{RS}.GzipDecoder", "decompress")
 
     # the tolerant state may only be entered once a complete member was followed by more data
